@@ -42,7 +42,7 @@ def snapshot_tree(d, marker=b"@", raw=False):
     for root, dirs, files in os.walk(d):
         dirs.sort()
         for name in sorted(files):
-            if name.startswith(".script-"):
+            if name.startswith(".vscript"):
                 continue
             p = os.path.join(root, name)
             rel = os.path.relpath(p, d)
